@@ -631,8 +631,21 @@ func c13aComment(r *rng, quotesOK bool) string {
 	return pick(r, []string{"EUR 12.50, Kurs 1.0834", "USD 9.99 Kurs 1.1", "Fremdwährung; Zuschlag 1.5%", "Ünïcode 漢"})
 }
 
+// damaged statement "quote": a free-text field with a double quote is written without quoting, or a quoted field is
+// followed by text.  A reader without LazyQuotes stops there (csv.ErrBareQuote, csv.ErrQuote) and the import fails; a
+// reader with LazyQuotes delivers a record (for the strict readers this is the only kind of statement on which the
+// setting can be seen: whatever the strict reader accepts the lazy reader reads in the same way)
+const c13aRawMark = "\x01raw:"
+
+func c13aBareQuote(r *rng) string {
+	return c13aRawMark + pick(r, []string{"Café \"Chez Léon\"", "say \"hi\"", "5\" nails", "\"Migros\" Zürich", "\"a\"b", "x\""})
+}
+
 // csv field: quoted when needed (or at random), quotes doubled
 func c13aCsvField(r *rng, s string, comma byte, always bool) string {
+	if raw, ok := strings.CutPrefix(s, c13aRawMark); ok {
+		return raw // damaged statement: written as it is (mal "quote")
+	}
 	need := always || strings.ContainsAny(s, "\"\n\r") || strings.IndexByte(s, comma) >= 0 ||
 		strings.HasPrefix(s, " ") || strings.HasPrefix(s, "\t") || strings.HasPrefix(s, " ") || s == ""
 	if s == "" && !always {
@@ -645,6 +658,36 @@ func c13aCsvField(r *rng, s string, comma byte, always bool) string {
 		return "\"" + strings.ReplaceAll(s, "\"", "\"\"") + "\""
 	}
 	return s
+}
+
+// What the reader settings of the importers exist for (their use is otherwise tied only through damaged statements):
+// in about one WELL-FORMED statement in twelve of an importer whose reader has TrimLeadingSpace the export puts white
+// space between the delimiter and the next field - blanks, a tab, a no-break space (unicode.IsSpace; 0xA0 in the
+// ISO 8859-1 text of supercard), also before a quoted field and before the first field of a line.  The reader drops
+// it, so the importer sees the same fields and the statement stays well-formed; with the setting off the field keeps
+// the blanks (a date or an amount no longer parses) and a quoted field becomes a bare field with a quote
+// (csv.ErrBareQuote).
+type c13aPadder struct{ on bool }
+
+func c13aNewPadder(r *rng, mal string) c13aPadder {
+	return c13aPadder{on: mal == "" && r.chance(8)}
+}
+
+func (p c13aPadder) pad(r *rng) string {
+	if !p.on || !r.chance(25) {
+		return ""
+	}
+	return pick(r, []string{" ", " ", " ", "  ", "\t", " \t ", "\u00a0", "\u00a0 ", "\u0085"})
+}
+
+// a free-text field as an export for a LazyQuotes reader may write it: a double quote inside a field that is not
+// quoted (not at its start, where it would open a quoted field)
+func c13aLazyField(r *rng, s string, comma byte) (string, bool) {
+	if strings.Contains(s, "\"") && !strings.HasPrefix(s, "\"") && !strings.ContainsAny(s, "\n\r") && strings.IndexByte(s, comma) < 0 &&
+		strings.TrimLeft(s, " \t\u00a0") == s && r.chance(40) {
+		return s, true
+	}
+	return "", false
 }
 
 func c13aAccount(r *rng, liability bool) string {
@@ -733,6 +776,7 @@ func c13aGenSwisscard2(r *rng, mal string) c13aCase {
 	}
 	rows, quotesOK := c13aRows(r, n, []string{"CHF", "CHF", "CHF", "EUR", "USD"}, 5, true)
 	c.quotes = quotesOK
+	pd := c13aNewPadder(r, mal)
 	bad := -1
 	if mal != "" && mal != "acct" {
 		bad = r.intn(n)
@@ -768,6 +812,8 @@ func c13aGenSwisscard2(r *rng, mal string) c13aCase {
 				fields[5] = pick(r, append(c13aBadAmounts, "", "1'234.50"))
 			case "cur":
 				fields[4] = pick(r, c13aBadCurs)
+			case "quote":
+				fields[pick(r, []int{1, 2, 10})] = c13aBareQuote(r)
 			case "cols":
 				if r.chance(50) {
 					fields = fields[:11]
@@ -780,6 +826,7 @@ func c13aGenSwisscard2(r *rng, mal string) c13aCase {
 			if k > 0 {
 				b.WriteByte(',')
 			}
+			b.WriteString(pd.pad(r))
 			b.WriteString(c13aCsvField(r, f, ',', r.chance(85)))
 		}
 		b.WriteString(pick(r, []string{"\n", "\n", "\r\n"}))
@@ -1029,6 +1076,7 @@ func c13aGenPostfinance(r *rng, mal string) c13aCase {
 	cur := pick(r, []string{"CHF", "CHF", "EUR", "USD"})
 	rows, quotesOK := c13aRows(r, n, []string{cur}, 3, false)
 	c.quotes = quotesOK
+	pd := c13aNewPadder(r, mal)
 	bad := -1
 	if mal != "" && mal != "acct" {
 		bad = r.intn(n)
@@ -1107,8 +1155,13 @@ func c13aGenPostfinance(r *rng, mal string) c13aCase {
 			if k > 0 {
 				b.WriteByte(';')
 			}
+			b.WriteString(pd.pad(r))
 			if k == 1 || k == 4 || k == 5 {
-				b.WriteString(c13aCsvField(r, f, ';', false))
+				if raw, ok := c13aLazyField(r, f, ';'); ok {
+					b.WriteString(raw) // a bare quote inside an unquoted field (LazyQuotes)
+				} else {
+					b.WriteString(c13aCsvField(r, f, ';', false))
+				}
 			} else {
 				b.WriteString(f)
 			}
@@ -1133,6 +1186,7 @@ func c13aGenSwisscard(r *rng, mal string) c13aCase {
 	}
 	rows, quotesOK := c13aRows(r, n, []string{"CHF"}, 4, true)
 	c.quotes = quotesOK
+	pd := c13aNewPadder(r, mal)
 	bad := -1
 	if mal != "" && mal != "acct" {
 		bad = r.intn(n)
@@ -1170,13 +1224,14 @@ func c13aGenSwisscard(r *rng, mal string) c13aCase {
 					b.WriteByte(' ')
 				}
 			}
+			b.WriteString(pd.pad(r))
 			if k == 4 || k == 5 || k == 8 {
 				b.WriteString(c13aCsvField(r, f, ',', r.chance(80)))
 			} else {
 				b.WriteString(c13aCsvField(r, f, ',', false))
 			}
 		}
-		b.WriteString("\n")
+		b.WriteString(pick(r, []string{"\n", "\n", "\n", "\r\n"}))
 		c.nl = c.nl || c13aHasNewline(fields...)
 		c.facts = append(c.facts, c13aFact{c13aISO(row.date), row.amt.value(!row.credit), "CHF", false})
 	}
@@ -1205,6 +1260,7 @@ func c13aGenSupercard(r *rng, mal string) c13aCase {
 	}
 	rows, quotesOK := c13aRows(r, n, []string{"CHF", "CHF", "CHF", "EUR"}, 2, true)
 	c.quotes = quotesOK
+	pd := c13aNewPadder(r, mal)
 	bad := -1
 	if mal != "" && mal != "acct" {
 		bad = r.intn(n)
@@ -1220,6 +1276,14 @@ func c13aGenSupercard(r *rng, mal string) c13aCase {
 			if _, ok := c13aLatin1(row.texts[k]); !ok {
 				row.texts[k] = pick(r, []string{"Ärztliche Dienstleistungen", "Café Zürich", "Elektronikgeschäfte, Radio/TV", "Tankstelle; Shop", "×÷ÿ§"})
 			}
+		}
+		if mal == "" && r.chance(3) {
+			// every byte 0x80..0xFF once (ties Model/CsvLatin1.v latin1_decode to charmap.ISO8859_1 over the whole upper half)
+			var hi []rune
+			for c := rune(0x80); c <= 0xFF; c++ {
+				hi = append(hi, c)
+			}
+			row.texts[1] = "hi " + string(hi) + " end"
 		}
 		if r.chance(5) {
 			row.amt = c13aExotic(r)
@@ -1270,13 +1334,14 @@ func c13aGenSupercard(r *rng, mal string) c13aCase {
 			if k > 0 {
 				b.WriteByte(';')
 			}
+			b.WriteString(pd.pad(r))
 			if k == 4 || k == 5 {
 				b.WriteString(c13aCsvField(r, f, ';', false))
 			} else {
 				b.WriteString(f)
 			}
 		}
-		b.WriteString("\n")
+		b.WriteString(pick(r, []string{"\n", "\n", "\n", "\r\n"}))
 		c.nl = c.nl || c13aHasNewline(fields...)
 		c.facts = append(c.facts, c13aFact{c13aISO(row.date), row.amt.value(!row.credit), row.cur, false})
 	}
@@ -1302,7 +1367,7 @@ var c13aGenFuncs = map[string]func(r *rng, mal string) c13aCase{
 	"postfinance": c13aGenPostfinance, "swisscard": c13aGenSwisscard, "supercard": c13aGenSupercard,
 }
 
-var c13aMalKinds = []string{"date", "datefmt", "amount", "cols", "cur", "acct"}
+var c13aMalKinds = []string{"date", "datefmt", "amount", "cols", "cur", "acct", "quote"}
 
 // genC13a: n well-formed statements per importer and n/3 damaged ones; args may name a subset
 // of importers.
